@@ -2,6 +2,8 @@ package lang
 
 import (
 	"encoding/json"
+	"fmt"
+	"strconv"
 	"strings"
 	"testing"
 
@@ -192,6 +194,17 @@ func TestC17Filter(t *testing.T) {
 		} else {
 			classes = append(classes, "filter:nonconforming")
 		}
+		// (2b) whatever the value (conforming or not): a result delivered
+		// without a fatal error is the input with nothing changed except
+		// dropped object members and integral floats written as integers.
+		if !fatal {
+			if got, perr := jsonx.Parse(out); perr == nil {
+				if why := notPruningOf(v, got, "$"); why != "" {
+					fail(t, "C17", "filter-changes-value", "type %v value %s: filter (fatal=false, err=%v) returned %s: %s\n%s", dst, data, ferr, out, why, u.Decls())
+				}
+				classes = append(classes, "pruning-checked")
+			}
+		}
 		// (3) idempotence whenever the first result is JSON.
 		if g1, perr := jsonx.Parse(out); perr == nil {
 			out2, _, _ := rd.FilterJson(json.RawMessage(append([]byte{}, out...)), lookup)
@@ -209,6 +222,76 @@ func TestC17Filter(t *testing.T) {
 				"value": stats.Trunc(string(data), 300), "filtered": stats.Trunc(string(out), 300), "decls": stats.Trunc(u.Decls(), 600)}
 		})
 	})
+}
+
+// notPruningOf explains why out is not "in with object members dropped and
+// integral floats written as integers" ("" if it is).  Numbers that do not
+// fit an int64 token are compared at float64 precision (JSON numbers are
+// doubles to martian), so only a change of the denoted value is reported.
+func notPruningOf(in, out any, path string) string {
+	switch o := out.(type) {
+	case nil:
+		if in != nil {
+			return path + ": value replaced by null"
+		}
+		return ""
+	case bool:
+		if b, ok := in.(bool); !ok || b != o {
+			return path + ": bool changed"
+		}
+		return ""
+	case string:
+		if s, ok := in.(string); !ok || s != o {
+			return path + ": string changed"
+		}
+		return ""
+	case json.Number:
+		n, ok := in.(json.Number)
+		if !ok {
+			return path + ": number in place of another kind of value"
+		}
+		if string(n) == string(o) {
+			return ""
+		}
+		fi, err1 := strconv.ParseFloat(string(n), 64)
+		fo, err2 := strconv.ParseFloat(string(o), 64)
+		if err1 != nil || err2 != nil || fi != fo {
+			return fmt.Sprintf("%s: number %s became %s", path, n, o)
+		}
+		if ii, err := strconv.ParseInt(string(n), 10, 64); err == nil {
+			if io, err := strconv.ParseInt(string(o), 10, 64); err != nil || ii != io {
+				return fmt.Sprintf("%s: integer %s became %s", path, n, o)
+			}
+		}
+		return ""
+	case []any:
+		a, ok := in.([]any)
+		if !ok || len(a) != len(o) {
+			return path + ": array shape changed"
+		}
+		for i := range o {
+			if why := notPruningOf(a[i], o[i], fmt.Sprintf("%s[%d]", path, i)); why != "" {
+				return why
+			}
+		}
+		return ""
+	case *jsonx.Obj:
+		io, ok := in.(*jsonx.Obj)
+		if !ok {
+			return path + ": object in place of another kind of value"
+		}
+		for i, k := range o.Keys {
+			iv, ok := io.Get(k)
+			if !ok {
+				return fmt.Sprintf("%s: member %q invented", path, k)
+			}
+			if why := notPruningOf(iv, o.Vals[i], path+"."+k); why != "" {
+				return why
+			}
+		}
+		return ""
+	}
+	return path + ": unexpected kind of value"
 }
 
 func typeDepth(u *mrogen.Universe, ty mrogen.Ty) int {
